@@ -120,6 +120,8 @@ def stopVerdict (real : Option String) (expectPanic : Bool := false) : String :=
 /-- `hc-stop before-tick` | `hc-stop during-retry K` | `hc-stop during-ping K F|S`
     → `stopped pings=K late=0` | `blocked stopped pings=K late=0` | `blocked pings=5 panic` -/
 def hHcStop (args : List String) (real : Option String) : Option Out := do
+  -- a trailing `slow` (the held ping lasts longer than the retry interval) does not change the model's steps
+  let args := if args.getLast? == some "slow" then args.dropLast else args
   let model ← match args with
     | ["before-tick"] => do
       match exec init (startSeq ++ stopSeq) with
